@@ -277,6 +277,9 @@ func (vc *VC) merge(ins []edgeState, hint string, cellType func(*ssa.Alloc) type
 }
 
 func (vc *VC) freshDef(hint, sort, term string) string {
+	if vc.quiet > 0 {
+		return term
+	}
 	n := vc.fresh(hint)
 	vc.emit(fmt.Sprintf("(define-fun %s () %s %s)", n, sort, term))
 	return n
